@@ -614,6 +614,10 @@ def copy (dst src : Big) : M Big := do
 
 /-! ### Operations as data, one step, and the exact-integer specification -/
 
+inductive SelfKind where
+  | add | sub | or | and | mul | div
+  deriving Repr, DecidableEq
+
 inductive Op where
   | assign (K x : Nat)          -- x = N(x)
   | bop (op : BOp) (K x : Nat)  -- |= &= += -= with a K-bit operand (op ≠ set)
@@ -627,6 +631,15 @@ inductive Op where
   | narrow (K : Nat)
   | ffb | flb
   | clear
+  -- the rest of the public surface (thin wrappers around the operations above)
+  | construct (K x : Nat)       -- BigInt(N(x)): converting constructor, on a value-initialised object
+  | addAt (x i : Nat)           -- Add(x, i)
+  | subAt (x i : Nat)           -- Subtract(x, i)
+  | divq (d : Nat)              -- operator/=  (Divide, remainder discarded)
+  | self (k : SelfKind)         -- b OP= b.Number()  /  b.Divide(b.Number())
+  | setIndex (i : Nat)          -- SetIndex(i)  (raw)
+  | store (i v : Nat)           -- Storage()[i] = v  (raw, through the non-const accessor)
+  | maxIndexC | typeWidthC | totalBitsC | sizeOfTypeC   -- the static constexpr members
   deriving Repr, DecidableEq
 
 inductive Ret where
@@ -652,6 +665,25 @@ def step (c : Cfg) (s : Big) : Op → M (Big × Ret)
   | .ffb => do let v ← findFirstBit c.W s; pure (s, .nat v)
   | .flb => do let v ← findLastBit c.W s; pure (s, .nat v)
   | .clear => do let s ← clear s; pure (s, .none)
+  | .construct K x => do let s ← opK c.W K .set (zero s.words.length) x; pure (s, .none)
+  | .addAt x i => do let s ← add c.W s x i; pure (s, .none)
+  | .subAt x i => do let s ← sub c.W s x i; pure (s, .none)
+  | .divq d => do let (s, _) ← divide c s d; pure (s, .none)
+  | .self k => do
+    let w ← number s          -- the operand is passed by value before the object is modified
+    match k with
+    | .add => do let s ← opK c.W c.W .add s w; pure (s, .none)
+    | .sub => do let s ← opK c.W c.W .sub s w; pure (s, .none)
+    | .or => do let s ← opK c.W c.W .or s w; pure (s, .none)
+    | .and => do let s ← opK c.W c.W .and s w; pure (s, .none)
+    | .mul => do let s ← multiply c s w; pure (s, .none)
+    | .div => do let (s, r) ← divide c s w; pure (s, .nat r)
+  | .setIndex i => pure (⟨s.words, i⟩, .none)
+  | .store i v => do let ws ← wr s.words i v; pure (⟨ws, s.idx⟩, .none)
+  | .maxIndexC => pure (s, .nat (maxIndex s.words))
+  | .typeWidthC => pure (s, .nat c.W)
+  | .totalBitsC => pure (s, .nat (s.words.length * c.W))
+  | .sizeOfTypeC => pure (s, .nat (c.W / 8))
 
 def run (c : Cfg) : Big → List Op → M (Big × List Ret)
   | s, [] => pure (s, [])
@@ -667,6 +699,10 @@ inductive Op2 where
   | save          -- t = x   (copy assignment)
   | load          -- x = t   (copy assignment)
   | move          -- x = std::move(t)  (copy, then t.Clear())
+  | selfCopy      -- x = x             (guarded by `this != &src`)
+  | selfMove      -- x = std::move(x)  (guarded by `this != &src`)
+  | copyCtor      -- t rebuilt as BigInt(x)             (copy constructor on a value-initialised object)
+  | moveCtor      -- x rebuilt as BigInt(std::move(t))  (move constructor, then t.Clear())
   deriving Repr, DecidableEq
 
 structure Pair where
@@ -680,6 +716,16 @@ def step2 (c : Cfg) (p : Pair) : Op2 → M (Pair × Ret)
   | .load => do let x ← copy p.x p.t; pure (⟨x, p.t⟩, .none)
   | .move => do
     let x ← copy p.x p.t
+    let t ← clear p.t
+    pure (⟨x, t⟩, .none)
+  | .selfCopy => pure (p, .none)
+  | .selfMove => pure (p, .none)
+  | .copyCtor => do
+    -- `index_{src.index_}`, words 0..index_ copied into zero-initialised storage
+    let t ← copy (zero p.t.words.length) p.x
+    pure (⟨p.x, t⟩, .none)
+  | .moveCtor => do
+    let x ← copy (zero p.x.words.length) p.t
     let t ← clear p.t
     pure (⟨x, t⟩, .none)
 
@@ -727,6 +773,25 @@ def specStep (W n : Nat) (a : Nat) : Op → Option (Nat × Ret)
   | .ffb => if a ≠ 0 then some (a, .nat (val2 a)) else none
   | .flb => if a ≠ 0 then some (a, .nat a.log2) else none
   | .clear => some (0, .none)
+  | .construct K x => if x < 2 ^ K ∧ x < 2 ^ (n * W) then some (x, .none) else none
+  | .addAt x i => if x < 2 ^ W ∧ a + x * 2 ^ (W * i) < 2 ^ (n * W) then some (a + x * 2 ^ (W * i), .none) else none
+  | .subAt x i => if x < 2 ^ W ∧ x * 2 ^ (W * i) ≤ a then some (a - x * 2 ^ (W * i), .none) else none
+  | .divq d => if 0 < d ∧ d < 2 ^ W then some (a / d, .none) else none
+  | .self k =>
+    let w := a % 2 ^ W
+    match k with
+    | .add => if a + w < 2 ^ (n * W) then some (a + w, .none) else none
+    | .sub => some (a - w, .none)
+    | .or => some (a ||| w, .none)
+    | .and => some (a &&& w, .none)
+    | .mul => if a * w < 2 ^ (n * W) then some (a * w, .none) else none
+    | .div => if 0 < w then some (a / w, .nat (a % w)) else none
+  | .setIndex _ => none       -- raw mutators: outside the property (the model still follows them)
+  | .store _ _ => none
+  | .maxIndexC => some (a, .nat (n - 1))
+  | .typeWidthC => some (a, .nat W)
+  | .totalBitsC => some (a, .nat (n * W))
+  | .sizeOfTypeC => some (a, .nat (W / 8))
 
 /-- The specification for two objects holding `a` (x) and `b` (t). -/
 def specStep2 (W n : Nat) (a b : Nat) : Op2 → Option (Nat × Nat × Ret)
@@ -737,6 +802,10 @@ def specStep2 (W n : Nat) (a b : Nat) : Op2 → Option (Nat × Nat × Ret)
   | .save => some (a, a, .none)
   | .load => some (b, b, .none)
   | .move => some (b, 0, .none)
+  | .selfCopy => some (a, b, .none)
+  | .selfMove => some (a, b, .none)
+  | .copyCtor => some (a, a, .none)
+  | .moveCtor => some (b, 0, .none)
 
 /-- The little-endian base-2^W digits of `a`, `n` of them. -/
 def digits (W : Nat) : Nat → Nat → List Nat
